@@ -47,6 +47,29 @@ mod libmv {
     use ::glam_libm as glam;
     include!("suite.rs");
 }
+/// the lane-wise checks with `glam-assert` compiled in (clamp's bounds are sorted per lane, equal bounds included, so
+/// no documented precondition is violated): a panic there is a failure
+#[cfg(not(feature = "core"))]
+mod asserting {
+    pub const VARIANT: &str = "simd+glam-assert";
+    pub const LIBM: bool = false;
+    use ::glam_assert as glam;
+    include!("suite.rs");
+}
+#[cfg(not(feature = "core"))]
+mod scalar_asserting {
+    pub const VARIANT: &str = "scalar+glam-assert";
+    pub const LIBM: bool = false;
+    use ::glam_scalar_assert as glam;
+    include!("suite.rs");
+}
+#[cfg(feature = "core")]
+mod core_asserting {
+    pub const VARIANT: &str = "core+glam-assert";
+    pub const LIBM: bool = false;
+    use ::glam_core_assert as glam;
+    include!("suite.rs");
+}
 #[cfg(feature = "core")]
 mod core_simd {
     pub const VARIANT: &str = "core";
@@ -63,10 +86,13 @@ fn main() {
         subs.extend(simd::subs(&args));
         subs.extend(scalar::subs(&args));
         subs.extend(libmv::subs(&args));
+        subs.extend(asserting::subs(&args).into_iter().filter(|s| s.name.starts_with("lanewise/")).map(|s| s.with_div(2)));
+        subs.extend(scalar_asserting::subs(&args).into_iter().filter(|s| s.name.starts_with("lanewise/")).map(|s| s.with_div(4)));
     }
     #[cfg(feature = "core")]
     {
         subs.extend(core_simd::subs(&args));
+        subs.extend(core_asserting::subs(&args).into_iter().filter(|s| s.name.starts_with("lanewise/")).map(|s| s.with_div(4)));
     }
     let code = main_with("C01", "see MANIFEST / evidence rule", &args, subs);
     std::process::exit(code);
